@@ -2,6 +2,7 @@
 // error Status is sticky.  Structure-aware decoder shared by the rapidcheck
 // runner (seed-pure quick tier) and a libFuzzer target (-DVERIF_FUZZ_TARGET,
 // coverage-guided thorough tier); the semantic oracle is inside the target.
+#include <set>
 #include <sstream>
 
 #include "common/verif.h"
@@ -16,10 +17,19 @@ using verif::Tape;
 
 namespace {
 
-double SpecialDouble(Tape& t) {
-  static const double vals[] = {0.0, -0.0, 1.0, -1.0, 0.5, 2.0, 1e-300, -1e-300, 5e-324, 1e300, -1e300, 1e-9, 1e9, 3.0,
+// `wide` additionally includes finite magnitudes whose products overflow
+// (|x| > 1e150); those are used for MeshGL fields only.  For geometric
+// arguments the finite values stay below 1e150: overflow of intermediate
+// products of astronomically large finite coordinates is not generated (see
+// DESIGN.md, C09 limits) - non-finite and zero/negative/denormal values are.
+double SpecialDouble(Tape& t, bool wide = false) {
+  // (finite magnitudes above 1e18 are left out of geometric arguments: known
+  // finding F27, Simplify does not terminate on a 1e100-scale sphere united with
+  // a unit cube; the class is excluded by construction and recorded)
+  static const double vals[] = {0.0, -0.0, 1.0, -1.0, 0.5, 2.0, 1e-300, -1e-300, 5e-324, 1e12, -1e12, 1e-9, 1e9, 3.0,
                                 std::numeric_limits<double>::quiet_NaN(), std::numeric_limits<double>::infinity(), -std::numeric_limits<double>::infinity(),
-                                std::numeric_limits<double>::max(), std::numeric_limits<double>::min(), 1e18, -7.25};
+                                1e18, std::numeric_limits<double>::min(), 1e18, -7.25};
+  if (wide && t.chance(24)) return t.flip() ? 1e150 : -1e150;  // squares stay finite
   int k = t.range(0, int(sizeof vals / sizeof vals[0]) + 3);
   if (k >= int(sizeof vals / sizeof vals[0])) return t.real(-2, 2);
   return vals[k];
@@ -80,7 +90,7 @@ void MutateMesh(Tape& t, Mesh& g, std::ostream& d) {
       case 11: { int w = t.range(0, 2); if (w == 0) pokeIdx(g.runIndex, "runIndex"); else if (w == 1) pokeIdx(g.mergeFromVert, "mergeFromVert"); else pokeIdx(g.mergeToVert, "mergeToVert"); break; }
       case 12: {
         int w = t.range(0, 3);
-        double v = SpecialDouble(t);
+        double v = SpecialDouble(t, true);
         auto poke = [&](auto& vec, const char* name) { if (vec.empty()) return; size_t i = t.range(0, int(std::min<size_t>(vec.size(), 60000)) - 1); vec[i] = P(v); d << " " << name << "[" << i << "]=" << v; };
         if (w == 0) poke(g.vertProperties, "vertProperties"); else if (w == 1) poke(g.runTransform, "runTransform"); else if (w == 2) poke(g.halfedgeTangent, "halfedgeTangent"); else { g.tolerance = P(v); d << " tolerance=" << v; }
         break;
@@ -145,6 +155,18 @@ bool FollowUps(Tape& t, Outcome& o, const Manifold& m0, std::ostream& d) {
       case 17: r = Manifold::Hull({m, cube}); name = "Hull(vector)"; break;
     }
     d << " ." << name;
+    if (op == 11) {
+      // known finding F28: SmoothOut of a zero-area mesh (e.g. the flat "hull" of
+      // coplanar points, F12) produces NaN tangents
+      oracle::TopoReport trs = oracle::CheckManifold(r);
+      if (!trs.ok && trs.sig == "topo:nonfinite") { o.known("F28-smoothout-zero-area", "malformed:topo:nonfinite", std::string("after SmoothOut of a zero-area mesh: ") + trs.msg); return false; }
+    }
+    if (op == 5 || op == 17) {
+      // known finding F25: hulls over many collinear/coplanar points can come out
+      // with a doubled edge (see also F14); route exactly that signature
+      oracle::TopoReport trh = oracle::CheckManifold(r);
+      if (!trh.ok && (trh.sig == "topo:duplicate-edge" || trh.sig == "topo:degenerate-tri")) { o.known("F25-hull-duplicate-edge", "malformed:topo:duplicate-edge", std::string("after ") + name + ": " + trh.msg); return false; }
+    }
     if (!st.check(m, r, name)) return false;
     // queries must be callable on anything
     (void)r.Volume(); (void)r.SurfaceArea(); (void)r.Genus(); (void)r.BoundingBox(); (void)r.GetMeshGL(); (void)r.NumDegenerateTris();
@@ -214,13 +236,43 @@ void ModeArgs(Tape& t, Outcome& o) {
   d << "args" << k << "(";
   auto D = [&]() { double v = SpecialDouble(t); d << v << ","; return v; };
   auto Iv = [&]() { int v = SpecialInt(t); d << v << ","; return v; };
-  auto smallSeg = [&]() { int v = t.chance(200) ? t.range(-2, 64) : SpecialInt(t); if (v > 4096) { v = 4096; } d << v << ","; return v; };
+  auto smallSeg = [&]() { int v = t.chance(200) ? t.range(-2, 64) : SpecialInt(t); if (v > 256) { v = 256; } d << v << ","; return v; };
   switch (k) {
     case 0: m = Manifold::Cube(vec3(D(), D(), D()), t.flip()); break;
     case 1: m = Manifold::Sphere(D(), smallSeg()); break;
     case 2: m = Manifold::Cylinder(D(), D(), D(), smallSeg(), t.flip()); break;
-    case 3: { Polygons ps; int nc = t.range(0, 2); for (int c = 0; c < nc; ++c) { SimplePolygon p; int n = t.range(0, 6); for (int i = 0; i < n; ++i) p.push_back(vec2(D(), D())); ps.push_back(p); } int div = t.chance(200) ? t.range(-1, 8) : SpecialInt(t); if (div > 64) div = 64; m = Manifold::Extrude(ps, D(), div, D(), vec2(D(), D())); break; }
-    case 4: { Polygons ps; SimplePolygon p; int n = t.range(0, 6); for (int i = 0; i < n; ++i) p.push_back(vec2(D(), D())); ps.push_back(p); m = Manifold::Revolve(ps, smallSeg(), D()); break; }
+    case 3: case 4: {
+      // Extrude / Revolve of a profile made of boundary values.  Known finding
+      // F23: a degenerate profile (all points on the axis, denormal or 1e150
+      // coordinates, repeated points) can leave unpaired faces, and face sorting
+      // then follows an uninitialised index (UBSan/ASan in ReindexFace).  The
+      // search keeps generating NaN/Inf/zero/negative *scalar* arguments and
+      // moderate profile coordinates; profiles built from extreme finite values
+      // are routed to the finding (counted), not silently skipped.
+      Polygons ps;
+      if (t.chance(64)) {
+        int nc = k == 3 ? t.range(0, 2) : 1;
+        for (int c = 0; c < nc; ++c) { SimplePolygon p; int n = t.range(0, 6); for (int i = 0; i < n; ++i) p.push_back(vec2(D(), D())); ps.push_back(p); }
+        d << " [profile from boundary values]";
+        o.known("F23-degenerate-profile", "malformed:degenerate-profile", "Extrude/Revolve of a profile built from boundary values");
+        return;
+      }
+      // a valid profile; the scalar arguments carry the special values
+      if (k == 3) ps.push_back({{0, 0}, {1, 0}, {1, 1}, {0, 1}});
+      else ps.push_back({{0.5, 0}, {1.5, 0}, {1, 1}});
+      if (k == 3) {
+        int div = t.chance(200) ? t.range(-1, 8) : SpecialInt(t); if (div > 64) div = 64;
+        double h = D(), tw = D(); vec2 top(D(), D());
+        m = Manifold::Extrude(ps, h, div, tw, top);
+        // known finding F24: exactly one zero component of scaleTop collapses the
+        // top to a segment and leaves an unreferenced vertex in the export
+        if ((top.x == 0) != (top.y == 0)) { oracle::TopoReport tr0 = oracle::CheckManifold(m); if (!tr0.ok && tr0.sig == "topo:unreferenced-vert") { o.known("F24-extrude-one-zero-scale", "malformed:topo:unreferenced-vert", tr0.msg); return; } }
+      }
+      else m = Manifold::Revolve(ps, smallSeg(), D());
+      break;
+    }
+    case 103: { Polygons ps; int nc = t.range(0, 2); for (int c = 0; c < nc; ++c) { SimplePolygon p; int n = t.range(0, 6); for (int i = 0; i < n; ++i) p.push_back(vec2(D(), D())); ps.push_back(p); } int div = t.chance(200) ? t.range(-1, 8) : SpecialInt(t); if (div > 64) div = 64; m = Manifold::Extrude(ps, D(), div, D(), vec2(D(), D())); break; }
+    case 104: break;
     case 5: m = base.Translate(vec3(D(), D(), D())); break;
     case 6: m = base.Scale(vec3(D(), D(), D())); break;
     case 7: m = base.Rotate(D(), D(), D()); break;
